@@ -463,6 +463,8 @@ def main_check(prop, argv):
     known_lines, pinned_runs = [], 0
     # (executed in worker processes: the parent must not run solver code before it forks the pool)
     pinned = [e for e in known if e.get("plan")]
+    if os.environ.get("VERIF_SKIP_PINNED"):
+        pinned = []      # developer switch: what does exploration alone find (used when trying seeded changes)
     pinned_res = run_plans_in_pool(prop, [dict(e["plan"], _pinned=e["id"]) for e in pinned], cap)
     for e, r in zip(pinned, pinned_res):
         plan = e["plan"]
